@@ -819,8 +819,43 @@ fn parlib_family(_case: &Value) -> Value {
     let mut dbs: Vec<String> = evs.iter().filter(|e| e[0] == "connect-db").map(|e| e[2].as_str().unwrap().to_string()).collect();
     dbs.sort();
     let distinct = { let mut d = dbs.clone(); d.dedup(); d.len() };
+    // second observation: `$__DATABASE__` names the file's own database on every connection of that file, also when the
+    // parent runner carries variables of its own (set_var), including one called __DATABASE__
+    let tree2 = Tree::create(&json!([
+        ["q/alpha.slt", "file", "control substitution on\n\nstatement ok\nDB=$__DATABASE__\n\nconnection other\nstatement ok\nDB=$__DATABASE__\n"],
+        ["q/beta.slt", "file", "control substitution on\n\nstatement ok\nDB=${__DATABASE__}\n"]
+    ]));
+    shared.lock().unwrap().events.clear();
+    set_current(Some(shared.clone()));
+    let mut runner2 = Runner::new(MockMaker::<DefaultColumnType>::new(shared.clone()));
+    runner2.set_var("__DATABASE__".to_string(), "main".to_string());
+    runner2.set_var("foo".to_string(), "bar".to_string());
+    let glob2 = format!("{}q/*.slt", tree2.prefix());
+    let res2 = catch_unwind(AssertUnwindSafe(|| runner2.run_parallel(&glob2, vec!["h".to_string()], par_builder, 2)));
+    drop(runner2);
+    set_current(None);
+    let evs2 = shared.lock().unwrap().events.clone();
+    let mut db_of: std::collections::HashMap<u64, String> = std::collections::HashMap::new();
+    let mut mismatches = vec![];
+    let mut seen = 0;
+    for e in evs2.iter() {
+        if e[0] == "connect-db" {
+            db_of.insert(e[1].as_u64().unwrap(), e[2].as_str().unwrap().to_string());
+        } else if e[0] == "sql" {
+            let t = e[2].as_str().unwrap_or("");
+            if let Some(rest) = t.strip_prefix("DB=") {
+                seen += 1;
+                let name = rest.split(' ').next().unwrap_or("");
+                let own = db_of.get(&e[1].as_u64().unwrap()).cloned().unwrap_or_default();
+                if name != own {
+                    mismatches.push(json!([t, own]));
+                }
+            }
+        }
+    }
     json!({"ok": res.map(|r| r.is_ok()).unwrap_or(false), "creates": creates, "drops": drops, "connects": connects,
-           "shutdowns": shutdowns, "distinct_db_names": distinct})
+           "shutdowns": shutdowns, "distinct_db_names": distinct,
+           "dbvar_ok": res2.map(|r| r.is_ok()).unwrap_or(false), "dbvar_seen": seen, "dbvar_mismatches": mismatches})
 }
 
 fn dispatch(family: &str, case: &Value) -> Value {
